@@ -39,6 +39,12 @@ async def failnl(*a, **kw):
     raise RuntimeError("boom with a newline at the end\n")
 
 
+async def _quiet(*a, **kw):
+    """A worker whose name starts with an underscore (a dotted path may name it all the same)."""
+    _log("_quiet", a, kw)
+    return None
+
+
 def plain(*a, **kw):
     """Not a coroutine function."""
     _log("plain", a, kw)
